@@ -912,8 +912,8 @@ META = {
              'there; lookups fetch with clear=True under self.lazyLoad); no attribute read by the lookups is a stale snapshot of a constructor local; '
              'every configuration field read on the compute path must be part of the cache file name; cache writer and reader agree on field count, '
              'separators and types and the cache is written atomically; per-record flags are re-initialised per VCF record, the conversion filter '
-             'inspects the carried bases, a site is stored iff used and not bad. Does NOT decide the informative-site rules against a VCF at runtime.'),
-    'technique': 'static analysis: call-graph single-source check, snapshot/redefinition path analysis, field read-set vs cache-key provenance, string-shape agreement, dominator check of per-iteration flag initialisation; decision table of the cache reader region filter',
+             'inspects the carried bases, a site is stored iff used and not bad. The informative-site rules themselves are decided on thirteen model VCF records x 16 configurations (C18-R7/R8), NOT against a VCF at runtime.'),
+    'technique': 'static analysis: call-graph single-source check, snapshot/redefinition path analysis, field read-set vs cache-key provenance, string-shape agreement, dominator check of per-iteration flag initialisation; decision table of the cache reader region filter; small-scope abstract execution of fetchChromosome on model VCF records (rule R8, and wherever the structural reading of the record loop cannot follow), the allele admission test evaluated on allele strings',
     'design_ref': 'DESIGN.md section 5, C18',
 }
 
